@@ -2,7 +2,7 @@
 (* enumerates the abstract invocation space; every invocation is exported with the outcome Cli.tla assigns to it *)
 EXTENDS Cli, TLC, Json
 VARIABLE inv
-Files == {"good", "missing", "badheader", "outofrange", "afterblank", "undeclared", "argafteratt", "wrongformat"}
+Files == {"good", "missing", "badheader", "outofrange", "afterblank", "undeclared", "argafteratt", "wrongformat", "bincomment"}
 PClasses == {"valid", "nohyphen", "badquery", "badsem", "trailing", "trailinghyphen", "padded", "absent"}
 ArgClasses == {"absent", "valid", "toobig", "zero", "negative", "nan"}
 Encs == {"unset", "aux_var", "exp", "hybrid", "invalid"}
@@ -11,12 +11,12 @@ Space == [bin : {"crustabri", "iccma23"}, file : Files, fmt : {"iccma", "apx"}, 
 (* the wrapper takes -f -p -a only: it always reads ICCMA'23, always asks for certificates, always silences the log *)
 Legal(i) == /\ i.bin = "iccma23" => i.fmt = "iccma" /\ i.enc = "unset" /\ i.cert /\ i.log = "off" /\ i.file \notin {"undeclared", "argafteratt"}
             /\ i.fmt = "iccma" => i.file \notin {"undeclared", "argafteratt"}
-            /\ i.fmt = "apx" => i.file \notin {"badheader", "outofrange", "afterblank"}
+            /\ i.fmt = "apx" => i.file \notin {"badheader", "outofrange", "afterblank", "bincomment"}
             /\ i.pclass # "valid" => i.kind = "SE"
 Init == inv \in {i \in Space : Legal(i)}
 Next == UNCHANGED inv
 Spec == Init /\ [][Next]_inv
-TotalOutcome == Outcome(inv) \in {"answer", "refusal", "unspecified"}
+TotalOutcome == Outcome(inv) \in {"answer", "refusal", "unspecified", "answer_or_refusal"}
 (* an answer is promised exactly for well-formed invocations *)
 AnswerIffWellFormed == (Outcome(inv) = "answer") <=>
    (inv.file = "good" /\ inv.pclass = "valid" /\ inv.enc # "invalid" /\ (IF inv.kind = "SE" THEN inv.argc \in {"absent", "valid"} ELSE inv.argc = "valid"))
